@@ -5,6 +5,7 @@ import (
 	"hash"
 	"hash/fnv"
 	"math"
+	"strings"
 	"time"
 
 	"github.com/anishathalye/porcupine"
@@ -20,7 +21,7 @@ import (
 // S6: a shared *distmat.Wishart with lazily built state.
 
 type regOp struct {
-	kind   int // 0 NewDimension, 1 SymbolExists, 2 String
+	kind   int // 0 NewDimension, 1 SymbolExists, 2 Dimension.String, 3 Dimensions.String, 4 Unit formatted with %v
 	sym    int // symbol index (kinds 0, 1) or position of the dimension (kind 2)
 	client int
 }
@@ -119,13 +120,17 @@ func runRegistry(t *simrt.Tape, rc *RunCtx) *Violation {
 		n := 1 + t.Choose(simrt.KWorkload, 4)
 		for i := 0; i < n && total < 12; i++ {
 			op := regOp{client: c}
-			switch t.Choose(simrt.KWorkload, 4) {
+			switch t.Choose(simrt.KWorkload, 6) {
 			case 0, 1:
 				op.kind, op.sym = 0, t.Choose(simrt.KWorkload, nsyms)
 			case 2:
 				op.kind, op.sym = 1, t.Choose(simrt.KWorkload, nsyms)
-			default:
+			case 3:
 				op.kind, op.sym = 2, 1+t.Choose(simrt.KWorkload, nsyms)
+			case 4:
+				op.kind, op.sym = 3, 1+t.Choose(simrt.KWorkload, nsyms)
+			default:
+				op.kind, op.sym = 4, 1+t.Choose(simrt.KWorkload, nsyms)
 			}
 			plans[c] = append(plans[c], op)
 			total++
@@ -162,6 +167,43 @@ func runRegistry(t *simrt.Tape, rc *RunCtx) *Violation {
 				}
 				if out.str == -1 {
 					out.str = -2 // some other symbol
+				}
+			case 3, 4:
+				// compound dimensions. Go's map iteration order is not under
+				// the simulator's control, and Dimensions.String ranges over a
+				// map before sorting: to keep one tape one execution, kind 3
+				// uses a single atom (which may be unregistered and panic),
+				// kind 4 two atoms that are both certainly registered (the
+				// run's sentinel and a built-in one) plus the atom under test
+				// only when a String call has shown it to be registered.
+				var s string
+				if op.kind == 3 {
+					s = unit.Dimensions{base + unit.Dimension(op.sym): 1}.String()
+					if strings.Contains(s, "PANIC=") {
+						// Dimensions.String prints through fmt, which recovers
+						// the "illegal dimension" panic of Dimension.String
+						out.panicked = true
+						break
+					}
+					out.str = -2
+					for k := 0; k < nsyms; k++ {
+						if s == symName(k) {
+							out.str = k
+						}
+					}
+					break
+				}
+				s = fmt.Sprintf("%v", unit.New(1, unit.Dimensions{base: 1, unit.LengthDim: 2}))
+				if s != "1 m^2 "+tag+"_sentinel" && s != "1 "+tag+"_sentinel m^2" {
+					panic("unexpected format " + s)
+				}
+				// then behave like kind 2 for the model
+				s = (base + unit.Dimension(op.sym)).String()
+				out.str = -2
+				for k := 0; k < nsyms; k++ {
+					if s == symName(k) {
+						out.str = k
+					}
 				}
 			}
 		}()
